@@ -13,19 +13,23 @@ abstract.
                                 (generic neighbour lists / pair functional);
 * `accumulate_eq_direct_mesh` : the same for every mesh with the invariant `Inv` (C02/C10), any patch tokens;
 * `time_patch_spec`           : union in time × intersection in space (non-empty), one piece;
-* `space_patch_spec_partial`  : left / right assignment, common time interval, the integration domain is the
-                                union of the two space intervals — EXCLUDING pairs adjacent through the seam
-                                on the same parametrisation piece;
-* `space_patch_seam_same_piece`, `space_patch_seam_same_piece_general` : for those pairs the interval
-                                handed to `seminorm_h_1_2` is `[left.x0, right.x1]` with `right.x1 ≤ left.x0`:
-                                the complementary arc (negation witness of the full statement);
+* `space_patch_spec_full`     : FULL specification of the space patch, every neighbouring pair, as a case split:
+                                left / right assignment, common time interval, one seminorm call, and EITHER the pair
+                                is not a same-piece seam pair and the call integrates forward over exactly the union
+                                of the two space intervals (the definition) OR it is a same-piece seam pair and the
+                                call is `seminorm_h_1_2(f, left.x0, right.x1, γ)` with `right.x1 ≤ left.x0` — the
+                                complementary arc, run backwards (what the code does; finding F5);
+* `space_patch_spec_partial`  : its first case alone (kept as the lemma it is proved from);
+* `space_patch_seam_same_piece_general` : its second case alone; `space_patch_seam_same_piece` : kernel-evaluated
+                                witness that the second case occurs (so "every patch equals the definition" is false on
+                                the pinned code);
 * `weighted_l2_scaling`, `weighted_l2_scaling_real`;
 * `pool_eq_serial`.
 
-Full statement that is NOT provable (false on the pinned code, `space_patch_seam_same_piece`):
-  `space_patch_spec` : for every pair of neighbouring leaves `c`, `n` (across `x = x0` / `x = x1`, seam
-  included) the call made by `__integrate_h_1_2` is forward oriented and covers exactly
-  `left.covers ∪ right.covers`.
+The naive statement "for every pair of neighbouring leaves `c`, `n` (seam included) the call made by
+`__integrate_h_1_2` is forward oriented and covers exactly `left.covers ∪ right.covers`" is FALSE on the pinned code
+(`space_patch_seam_same_piece`); `space_patch_spec_full` is the complete true statement: it says for every pair what is
+integrated, and it is the definition exactly when the pair is not a same-piece seam pair.
 -/
 namespace Stbem.Estimator
 open Stbem.Mesh
@@ -289,6 +293,57 @@ theorem space_patch_seam_same_piece_general (m : Mesh) (h : Inv m) (L : Rat) (h0
     · rintro ⟨_, h1, _⟩; linarith
     · rintro ⟨_, _, h2⟩; linarith
 
+/-- **C09, the space patch: full specification, every pair.**  `sobolev_space` on an element `c` and a neighbour
+`n ≠ c` across `x = x1` or `x = x0` (seam included): no assertion fires; the common time interval (non-empty) is handed
+over; `right` is the neighbour of `left` across `x = left.x1` (directly or through the seam); `__integrate_h_1_2` passes
+its assertion and makes ONE seminorm call per outer Gauss point, and for that call EXACTLY ONE of the following holds:
+
+* (definition) the pair is not a same-piece seam pair, the call runs forward and integrates over exactly the union of
+  the two space intervals — this is the indicator of the definition;
+* (what the code does otherwise, finding F5) the pair is adjacent through the seam on one parametrisation piece, the call
+  is `seminorm_h_1_2(f, left.x0, right.x1, γ)` with `right.x1 ≤ left.x0` (equality only if the two elements are alone in
+  their slab): not forward oriented, its rule points `a + (b - a) ξ` sweep `[right.x1, left.x0]`, and no point strictly
+  inside that range belongs to either element — the complementary arc, run backwards.
+
+Nothing is excluded: every neighbouring pair of every mesh with the invariant falls into one of the two cases. -/
+theorem space_patch_spec_full (m : Mesh) (h : Inv m) (hg : m.glue = true) (L : Rat) (h0 : m.xmin = 0)
+    (hL : m.xmax = L) (c : Cell) (hc : c ∈ m.leaves) (n : Cell) (hne : n ≠ c)
+    (hn : n ∈ nbrs m c .right ∨ n ∈ nbrs m c .left) :
+    ∃ l r call, spacePatch L c n = .ok ⟨max n.t0 c.t0, min n.t1 c.t1, l, some r⟩ ∧
+      ((l = c ∧ r = n) ∨ (l = n ∧ r = c)) ∧
+      max n.t0 c.t0 < min n.t1 c.t1 ∧
+      (∀ t, (max n.t0 c.t0 ≤ t ∧ t ≤ min n.t1 c.t1) ↔ ((c.t0 ≤ t ∧ t ≤ c.t1) ∧ (n.t0 ≤ t ∧ t ≤ n.t1))) ∧
+      (r.x0 = l.x1 ∨ (l.x1 = L ∧ r.x0 = 0)) ∧
+      h12Call (closesCurve L) ⟨max n.t0 c.t0, min n.t1 c.t1, l, some r⟩ = .ok call ∧
+      ((¬ SeamSamePiece L l r ∧ call.oriented ∧ ∀ q x, call.covers q x ↔ (covers l q x ∨ covers r q x)) ∨
+       (SeamSamePiece L l r ∧ call = .same l.x0 r.x1 l.piece ∧ r.x1 ≤ l.x0 ∧ ¬ call.oriented ∧
+        (∀ ξ : Rat, 0 ≤ ξ → ξ ≤ 1 → r.x1 ≤ l.x0 + (r.x1 - l.x0) * ξ ∧ l.x0 + (r.x1 - l.x0) * ξ ≤ l.x0) ∧
+        (∀ q x, r.x1 < x → x < l.x0 → ¬ covers l q x ∧ ¬ covers r q x))) := by
+  obtain ⟨l, r, call, hp, hlr, ht, htime, htouch, hcall, hspec⟩ :=
+    space_patch_spec_partial m h hg L h0 hL c hc n hne hn
+  refine ⟨l, r, call, hp, hlr, ht, htime, htouch, hcall, ?_⟩
+  by_cases hs : SeamSamePiece L l r
+  · right
+    have hnl : n ∈ m.leaves := by rcases hn with hn | hn <;> exact (mem_nbrs.mp hn).1
+    have hov : OvT c n := by rcases hn with hn | hn <;> exact (mem_nbrs.mp hn).2.2
+    have hll : l ∈ m.leaves := by rcases hlr with ⟨e, _⟩ | ⟨e, _⟩ <;> rw [e] <;> assumption
+    have hrl : r ∈ m.leaves := by rcases hlr with ⟨_, e⟩ | ⟨_, e⟩ <;> rw [e] <;> assumption
+    have hlrne : l ≠ r := by
+      rcases hlr with ⟨e1, e2⟩ | ⟨e1, e2⟩
+      · rw [e1, e2]; exact fun e => hne e.symm
+      · rw [e1, e2]; exact hne
+    have hovlr : OvT l r := by
+      rcases hlr with ⟨e1, e2⟩ | ⟨e1, e2⟩
+      · rw [e1, e2]; exact hov
+      · rw [e1, e2]; exact hov.symm
+    obtain ⟨g1, g2, g3, g4, g5⟩ := space_patch_seam_same_piece_general m h L h0 hL l r hll hrl hlrne hovlr hs
+      (max n.t0 c.t0) (min n.t1 c.t1)
+    rw [hcall] at g1
+    have hce : call = .same l.x0 r.x1 l.piece := by injection g1
+    exact ⟨hs, hce, g2, by rw [hce]; exact g3, g4, g5⟩
+  · left
+    exact ⟨hs, hspec hs⟩
+
 /-- **Negation witness** (the known finding): the closed one-piece mesh with four elements
 `[0,1], [1,2], [2,3], [3,4]` (`L = 4`, like the mesh `MeshParametrized(Circle())` builds).  For the element
 `[0,1]` and its neighbour `[3,4]` through the seam the model — as the code — assigns `left = [3,4]`,
@@ -423,6 +478,14 @@ example : ∃ c ∈ exTensor.leaves, ∃ n ∈ nbrs exTensor c .top, ∃ p, time
   rw [this] at hp
   cases hp
   rfl
+
+/-- `space_patch_spec_full`, both cases occur on the tensor mesh: the pair (`0 = [0,1]`, `1 = [1,2]`) falls into the
+first case, the pair (`0`, `2 = [2,3]`, through the seam) into the second with the call over `[2, 1]` -/
+example : ∃ c ∈ exTensor.leaves, ∃ n ∈ nbrs exTensor c .right, ∃ n' ∈ nbrs exTensor c .left, n ≠ c ∧ n' ≠ c ∧
+    h12Call (closesCurve 3) ⟨0, 1, c, some n⟩ = .ok (.same 0 2 0) ∧
+    h12Call (closesCurve 3) ⟨0, 1, n', some c⟩ = .ok (.same 2 1 0) := by
+  refine ⟨⟨0, 1, 0, 1, 0, 0, 0, none, 0⟩, by decide +kernel, ⟨0, 1, 1, 2, 0, 0, 1, none, 0⟩, by decide +kernel,
+    ⟨0, 1, 2, 3, 0, 0, 2, none, 0⟩, by decide +kernel, by decide, by decide, by decide +kernel, by decide +kernel⟩
 
 /-- `space_patch_spec_partial`: an interior pair (`0 = [0,1]`, `1 = [1,2]`) of the tensor mesh satisfies the
 hypotheses and is not a same-piece seam pair; the seam pair (`0`, `2 = [2,3]`) satisfies the hypotheses and
